@@ -320,6 +320,10 @@ class ShapeInterp:
             l = list(v.shape)
             l[a], l[b] = l[b], l[a]
             return T(l)
+        if fn == "torch.eye" and c.args:
+            n_ = self.ev(c.args[0])
+            m_ = self.ev(c.args[1]) if len(c.args) > 1 and not isinstance(c.args[1], ast.keyword) else n_
+            return T((n_, m_))
         if fn == "torch.diag_embed" and c.args:
             v = self.ev(c.args[0])
             kw = {k.arg: self.const_int(k.value) for k in c.keywords}
